@@ -16,7 +16,10 @@ use std::sync::atomic::{AtomicBool, AtomicU64, Ordering};
 pub enum Base {
     /// 0 = tests/dlt-messages.xml, 1 = tests/robustness.xml of the repository
     Sample(u8),
-    Generated { model: fx::Model, layout: fx::Layout },
+    Generated {
+        model: fx::Model,
+        layout: fx::Layout,
+    },
     /// arbitrary document bytes (inputs found by the coverage-guided tier)
     Raw(#[serde(with = "crate::util::hexser")] Vec<u8>),
 }
@@ -67,8 +70,14 @@ fn load(paths: &[String]) -> Loaded {
         if e.is_none() {
             *e = Evaluator::spawn().ok();
         }
-        let Some(ev) = e.as_mut() else { return Loaded::Stalled };
-        let budget = if shrinking() { BUDGET_SHRINK_CPU_S } else { BUDGET_CPU_S };
+        let Some(ev) = e.as_mut() else {
+            return Loaded::Stalled;
+        };
+        let budget = if shrinking() {
+            BUDGET_SHRINK_CPU_S
+        } else {
+            BUDGET_CPU_S
+        };
         let r = ev.load(paths, budget);
         if matches!(r, Loaded::Hang { .. } | Loaded::Crash(_) | Loaded::Stalled) {
             ev.kill();
@@ -124,10 +133,18 @@ fn scan(doc: &[u8]) -> Vec<Tag> {
         };
         let Some(len) = len else { break };
         let inner = &rest[if kind == Kind::Close { 2 } else { 1 }..len];
-        let name_end = inner.iter().position(|c| c.is_ascii_whitespace() || *c == b'>' || *c == b'/').unwrap_or(inner.len());
+        let name_end = inner
+            .iter()
+            .position(|c| c.is_ascii_whitespace() || *c == b'>' || *c == b'/')
+            .unwrap_or(inner.len());
         let full = String::from_utf8_lossy(&inner[..name_end]).to_string();
         let name = full.rsplit(':').next().unwrap_or("").to_string();
-        tags.push(Tag { start: i, end: i + len, kind, name });
+        tags.push(Tag {
+            start: i,
+            end: i + len,
+            kind,
+            name,
+        });
         i += len;
     }
     tags
@@ -139,7 +156,8 @@ fn find(h: &[u8], n: &[u8]) -> Option<usize> {
 fn element_spans(tags: &[Tag]) -> Vec<(usize, usize, String)> {
     let mut spans = vec![];
     for (i, t) in tags.iter().enumerate() {
-        if t.kind == Kind::Open && matches!(t.name.as_str(), "PDU" | "FRAME" | "SIGNAL" | "CODING") {
+        if t.kind == Kind::Open && matches!(t.name.as_str(), "PDU" | "FRAME" | "SIGNAL" | "CODING")
+        {
             let mut depth = 0;
             for u in &tags[i..] {
                 match u.kind {
@@ -183,8 +201,15 @@ fn apply(doc: &[u8], d: &Damage) -> (Vec<u8>, Vec<usize>) {
             (doc[..k].to_vec(), vec![k])
         }
         Damage::DeleteSubtree(f) => {
-            let opens: Vec<usize> = tags.iter().enumerate().filter(|(_, t)| t.kind == Kind::Open).map(|(i, _)| i).collect();
-            let Some(&i) = pick(&opens, *f) else { return (doc.to_vec(), vec![]) };
+            let opens: Vec<usize> = tags
+                .iter()
+                .enumerate()
+                .filter(|(_, t)| t.kind == Kind::Open)
+                .map(|(i, _)| i)
+                .collect();
+            let Some(&i) = pick(&opens, *f) else {
+                return (doc.to_vec(), vec![]);
+            };
             let mut depth = 0;
             let mut end = tags[i].end;
             for u in &tags[i..] {
@@ -205,9 +230,15 @@ fn apply(doc: &[u8], d: &Damage) -> (Vec<u8>, Vec<usize>) {
             (out, vec![tags[i].start])
         }
         Damage::DeleteStartTag(f) | Damage::DeleteEndTag(f) => {
-            let want = if matches!(d, Damage::DeleteStartTag(_)) { Kind::Open } else { Kind::Close };
+            let want = if matches!(d, Damage::DeleteStartTag(_)) {
+                Kind::Open
+            } else {
+                Kind::Close
+            };
             let sel: Vec<&Tag> = tags.iter().filter(|t| t.kind == want).collect();
-            let Some(t) = pick(&sel, *f) else { return (doc.to_vec(), vec![]) };
+            let Some(t) = pick(&sel, *f) else {
+                return (doc.to_vec(), vec![]);
+            };
             let mut out = doc[..t.start].to_vec();
             out.extend_from_slice(&doc[t.end..]);
             (out, vec![t.start])
@@ -215,14 +246,18 @@ fn apply(doc: &[u8], d: &Damage) -> (Vec<u8>, Vec<usize>) {
         Damage::DeleteAttr(f) => {
             // attributes: ` name="value"` inside open / empty tags
             let mut attrs = vec![];
-            for t in tags.iter().filter(|t| matches!(t.kind, Kind::Open | Kind::Empty)) {
+            for t in tags
+                .iter()
+                .filter(|t| matches!(t.kind, Kind::Open | Kind::Empty))
+            {
                 let s = &doc[t.start..t.end];
                 let mut i = 0;
                 while i < s.len() {
                     if s[i] == b' ' {
                         if let Some(eq) = s[i..].iter().position(|&c| c == b'=') {
                             if s.get(i + eq + 1) == Some(&b'"') {
-                                if let Some(close) = s[i + eq + 2..].iter().position(|&c| c == b'"') {
+                                if let Some(close) = s[i + eq + 2..].iter().position(|&c| c == b'"')
+                                {
                                     attrs.push((t.start + i, t.start + i + eq + 2 + close + 1));
                                     i += eq + 2 + close + 1;
                                     continue;
@@ -233,7 +268,9 @@ fn apply(doc: &[u8], d: &Damage) -> (Vec<u8>, Vec<usize>) {
                     i += 1;
                 }
             }
-            let Some(&(a, b)) = pick(&attrs, *f) else { return (doc.to_vec(), vec![]) };
+            let Some(&(a, b)) = pick(&attrs, *f) else {
+                return (doc.to_vec(), vec![]);
+            };
             let mut out = doc[..a].to_vec();
             out.extend_from_slice(&doc[b..]);
             (out, vec![a])
@@ -251,8 +288,15 @@ fn apply(doc: &[u8], d: &Damage) -> (Vec<u8>, Vec<usize>) {
             (out, pos)
         }
         Damage::MoveSubtree(f, t) | Damage::CopySubtree(f, t) => {
-            let opens: Vec<usize> = tags.iter().enumerate().filter(|(_, t)| t.kind == Kind::Open).map(|(i, _)| i).collect();
-            let Some(&i) = pick(&opens, *f) else { return (doc.to_vec(), vec![]) };
+            let opens: Vec<usize> = tags
+                .iter()
+                .enumerate()
+                .filter(|(_, t)| t.kind == Kind::Open)
+                .map(|(i, _)| i)
+                .collect();
+            let Some(&i) = pick(&opens, *f) else {
+                return (doc.to_vec(), vec![]);
+            };
             let mut depth = 0;
             let mut end = tags[i].end;
             for u in &tags[i..] {
@@ -270,8 +314,14 @@ fn apply(doc: &[u8], d: &Damage) -> (Vec<u8>, Vec<usize>) {
             }
             let (a, b) = (tags[i].start, end);
             // destination: the end of some tag outside the moved subtree
-            let dests: Vec<usize> = tags.iter().map(|t| t.end).filter(|e| *e <= a || *e >= b).collect();
-            let Some(&dst) = pick(&dests, *t) else { return (doc.to_vec(), vec![]) };
+            let dests: Vec<usize> = tags
+                .iter()
+                .map(|t| t.end)
+                .filter(|e| *e <= a || *e >= b)
+                .collect();
+            let Some(&dst) = pick(&dests, *t) else {
+                return (doc.to_vec(), vec![]);
+            };
             let sub = doc[a..b].to_vec();
             let mut out = vec![];
             if matches!(d, Damage::CopySubtree(..)) {
@@ -301,12 +351,20 @@ fn apply(doc: &[u8], d: &Damage) -> (Vec<u8>, Vec<usize>) {
                 if let Some(p) = find(rest, b"SEQUENCE-NUMBER>") {
                     let start = i + p + b"SEQUENCE-NUMBER>".len();
                     // only opening tags: the text runs up to the next '<'
-                    let is_open = doc[..i + p].iter().rposition(|&c| c == b'<').map_or(false, |lt| doc.get(lt + 1) != Some(&b'/'));
+                    let is_open = doc[..i + p]
+                        .iter()
+                        .rposition(|&c| c == b'<')
+                        .map_or(false, |lt| doc.get(lt + 1) != Some(&b'/'));
                     out.extend_from_slice(&doc[i..start]);
-                    let end = doc[start..].iter().position(|&c| c == b'<').map(|e| start + e).unwrap_or(doc.len());
+                    let end = doc[start..]
+                        .iter()
+                        .position(|&c| c == b'<')
+                        .map(|e| start + e)
+                        .unwrap_or(doc.len());
                     if is_open {
                         n += 1;
-                        let v = crate::util::splitmix64((*seed as u64) << 32 | n) % [2u64, 3, 4, 5][(*seed as usize) % 4];
+                        let v = crate::util::splitmix64((*seed as u64) << 32 | n)
+                            % [2u64, 3, 4, 5][(*seed as usize) % 4];
                         out.extend_from_slice(v.to_string().as_bytes());
                         touched.push(start);
                     } else {
@@ -335,7 +393,11 @@ fn repo_dir() -> String {
     std::env::var("DLTVERIF_REPO").unwrap_or_else(|_| "/repo".to_string())
 }
 pub fn sample(i: u8) -> Option<Vec<u8>> {
-    let name = if i % 2 == 0 { "tests/dlt-messages.xml" } else { "tests/robustness.xml" };
+    let name = if i % 2 == 0 {
+        "tests/dlt-messages.xml"
+    } else {
+        "tests/robustness.xml"
+    };
     std::fs::read(format!("{}/{}", repo_dir(), name)).ok()
 }
 
@@ -355,7 +417,11 @@ fn judge(r: Loaded, what: &str, ctx: &dyn Fn() -> String) -> Result<&'static str
 
 /// name of the interpreted element the position lies in ("-" = outside)
 fn where_is(spans: &[(usize, usize, String)], pos: usize) -> String {
-    spans.iter().find(|s| s.0 < pos && pos < s.1).map(|s| s.2.clone()).unwrap_or_else(|| "-".to_string())
+    spans
+        .iter()
+        .find(|s| s.0 < pos && pos < s.1)
+        .map(|s| s.2.clone())
+        .unwrap_or_else(|| "-".to_string())
 }
 
 pub fn check(c: &Case) -> CheckResult {
@@ -388,7 +454,9 @@ pub fn check(c: &Case) -> CheckResult {
             7 => vec![lt_file],
             _ => valid.into_iter().chain([empty_file]).collect(),
         };
-        let cls = judge(load(&paths), "special-paths", &|| format!("paths={:?}", paths))?;
+        let cls = judge(load(&paths), "special-paths", &|| {
+            format!("paths={:?}", paths)
+        })?;
         pass.classes.push(cls);
         pass.classes.push("special-paths");
         pass.nontrivial = true;
@@ -399,7 +467,10 @@ pub fn check(c: &Case) -> CheckResult {
             Some(d) => vec![d],
             None => return Ok(pass.class("sample-file-missing")),
         },
-        Base::Generated { model, layout } => fx::render(model, layout).into_iter().map(|s| s.into_bytes()).collect(),
+        Base::Generated { model, layout } => fx::render(model, layout)
+            .into_iter()
+            .map(|s| s.into_bytes())
+            .collect(),
         Base::Raw(b) => vec![b.clone()],
     };
     let mut docs = docs;
@@ -424,7 +495,14 @@ pub fn check(c: &Case) -> CheckResult {
     if c.damage == Damage::AllTruncations {
         let mut damaged = docs.clone();
         // (prefixes that end before the first earlier damage are prefixes of the undamaged document, covered elsewhere)
-        let from = if c.pre.is_empty() { 0 } else { first_touched.unwrap_or(0).saturating_sub(2).min(base_doc.len()) };
+        let from = if c.pre.is_empty() {
+            0
+        } else {
+            first_touched
+                .unwrap_or(0)
+                .saturating_sub(2)
+                .min(base_doc.len())
+        };
         if !c.pre.is_empty() {
             pass.classes.push("damaged-then-all-truncations");
         }
@@ -432,7 +510,20 @@ pub fn check(c: &Case) -> CheckResult {
             damaged[target] = base_doc[..k].to_vec();
             let paths = write_docs(&damaged, "t");
             let place = where_is(&spans, k);
-            let cls = judge(load(&paths), &format!("truncated-inside-{}", place), &|| format!("{} document ({} bytes, file {} of {}) truncated at offset {}", label, base_doc.len(), target, docs.len(), k))?;
+            let cls = judge(
+                load(&paths),
+                &format!("truncated-inside-{}", place),
+                &|| {
+                    format!(
+                        "{} document ({} bytes, file {} of {}) truncated at offset {}",
+                        label,
+                        base_doc.len(),
+                        target,
+                        docs.len(),
+                        k
+                    )
+                },
+            )?;
             pass.classes.push(cls);
             pass.subcases += 1;
         }
@@ -444,7 +535,11 @@ pub fn check(c: &Case) -> CheckResult {
         let changed = bytes != *base_doc;
         damaged[target] = bytes;
         let paths = write_docs(&damaged, "d");
-        let place = touched.iter().map(|p| where_is(&spans, *p)).find(|p| p != "-").unwrap_or_else(|| "-".to_string());
+        let place = touched
+            .iter()
+            .map(|p| where_is(&spans, *p))
+            .find(|p| p != "-")
+            .unwrap_or_else(|| "-".to_string());
         let kind = match &c.damage {
             Damage::None => "intact",
             Damage::Truncate(_) | Damage::TruncateAt(_) => "truncated",
@@ -459,7 +554,14 @@ pub fn check(c: &Case) -> CheckResult {
             _ => "other",
         };
         let cls = judge(load(&paths), &format!("{}-inside-{}", kind, place), &|| {
-            format!("{} document (file {} of {}), damage {:?}, damaged file:\n{}", label, target, docs.len(), c.damage, String::from_utf8_lossy(&damaged[target][..damaged[target].len().min(3000)]))
+            format!(
+                "{} document (file {} of {}), damage {:?}, damaged file:\n{}",
+                label,
+                target,
+                docs.len(),
+                c.damage,
+                String::from_utf8_lossy(&damaged[target][..damaged[target].len().min(3000)])
+            )
         })?;
         pass.classes.push(cls);
         pass.classes.push(match kind {
@@ -490,7 +592,13 @@ pub fn check(c: &Case) -> CheckResult {
 }
 
 fn damage() -> BoxedStrategy<Damage> {
-    let byte = prop_oneof![prop::sample::select(vec![b'<', b'>', b'&', b'"', b'\'', b'/', 0u8, 0xFF, 0xC3, b'=', b' ', b'-', b'!', b'?', b';']), any::<u8>()];
+    let byte = prop_oneof![
+        prop::sample::select(vec![
+            b'<', b'>', b'&', b'"', b'\'', b'/', 0u8, 0xFF, 0xC3, b'=', b' ', b'-', b'!', b'?',
+            b';'
+        ]),
+        any::<u8>()
+    ];
     prop_oneof![
         1 => Just(Damage::None),
         6 => any::<u16>().prop_map(Damage::Truncate),
@@ -522,7 +630,15 @@ fn element_damage() -> BoxedStrategy<Damage> {
     .boxed()
 }
 fn damage_no_paths() -> BoxedStrategy<Damage> {
-    damage().prop_map(|d| if matches!(d, Damage::Paths(_)) { Damage::None } else { d }).boxed()
+    damage()
+        .prop_map(|d| {
+            if matches!(d, Damage::Paths(_)) {
+                Damage::None
+            } else {
+                d
+            }
+        })
+        .boxed()
 }
 
 /// markup tokens for the bounded-exhaustive "token documents": every element and attribute the loader interprets, in
@@ -617,14 +733,26 @@ pub fn run(run: &Run) {
                 rep
             });
         } else {
-            run.inconclusive(format!("sample file {} of the repository is not readable", s));
+            run.inconclusive(format!(
+                "sample file {} of the repository is not readable",
+                s
+            ));
         }
     }
     run.random(
         "generated-all-truncations",
         run.cases(160, 3_000),
         0.5,
-        || (fx::model_small(), fx::layout(), any::<u8>()).prop_map(|(model, layout, which_file)| Case { base: Base::Generated { model, layout }, damage: Damage::AllTruncations, which_file, pre: vec![] }),
+        || {
+            (fx::model_small(), fx::layout(), any::<u8>()).prop_map(
+                |(model, layout, which_file)| Case {
+                    base: Base::Generated { model, layout },
+                    damage: Damage::AllTruncations,
+                    which_file,
+                    pre: vec![],
+                },
+            )
+        },
         check,
     );
     // one or two element-level damages, then every truncation offset from the first damage on
@@ -643,7 +771,20 @@ pub fn run(run: &Run) {
         "combined-damage",
         run.cases(10_000, 200_000),
         0.3,
-        || (base(), vec(damage_no_paths(), 1..3), damage_no_paths(), any::<u8>()).prop_map(|(base, pre, damage, which_file)| Case { base, damage, which_file, pre }),
+        || {
+            (
+                base(),
+                vec(damage_no_paths(), 1..3),
+                damage_no_paths(),
+                any::<u8>(),
+            )
+                .prop_map(|(base, pre, damage, which_file)| Case {
+                    base,
+                    damage,
+                    which_file,
+                    pre,
+                })
+        },
         check,
     );
     // every document that is a sequence of at most TOKENS_LEN markup tokens (bounded-exhaustive)
@@ -661,7 +802,12 @@ pub fn run(run: &Run) {
                 doc.extend_from_slice(token((x % nt) as usize));
                 x /= nt;
             }
-            let case = Case { base: Base::Raw(doc), damage: Damage::None, which_file: 0, pre: vec![] };
+            let case = Case {
+                base: Base::Raw(doc),
+                damage: Damage::None,
+                which_file: 0,
+                pre: vec![],
+            };
             rep.evaluations += 1;
             match check(&case) {
                 Ok(_) => rep.nontrivial += 1,
@@ -676,10 +822,29 @@ pub fn run(run: &Run) {
         }
         rep
     });
-    run.random("damage", run.cases(30_000, 600_000), 0.3, || (base(), damage(), any::<u8>()).prop_map(|(base, damage, which_file)| Case { base, damage, which_file, pre: vec![] }), check);
-    run.extra("loads_in_child_processes", json!(LOADS.load(Ordering::Relaxed)));
+    run.random(
+        "damage",
+        run.cases(30_000, 600_000),
+        0.3,
+        || {
+            (base(), damage(), any::<u8>()).prop_map(|(base, damage, which_file)| Case {
+                base,
+                damage,
+                which_file,
+                pre: vec![],
+            })
+        },
+        check,
+    );
+    run.extra(
+        "loads_in_child_processes",
+        json!(LOADS.load(Ordering::Relaxed)),
+    );
     if STALLED.load(Ordering::Relaxed) {
-        run.inconclusive("an evaluator child stalled without consuming CPU (machinery problem, no verdict)".to_string());
+        run.inconclusive(
+            "an evaluator child stalled without consuming CPU (machinery problem, no verdict)"
+                .to_string(),
+        );
     }
     drop_evaluator();
     cleanup_workdirs();
